@@ -356,6 +356,9 @@ func (c *dedicatedSingleClient) SetPubSubHooks(hooks PubSubHooks) <-chan error {
 		ch <- err
 		return ch
 	}
+	// keep the invalidation callback installed by SetOnInvalidations: dropping it silently would also skip
+	// turning tracking off when the connection is released
+	hooks.onInvalidations = c.wire.GetPubSubHooks().onInvalidations
 	return c.wire.SetPubSubHooks(hooks)
 }
 
@@ -367,7 +370,7 @@ func (c *dedicatedSingleClient) SetOnInvalidations(fn func([]RedisMessage)) <-ch
 	}
 	hooks := c.wire.GetPubSubHooks()
 	hooks.onInvalidations = fn
-	return c.SetPubSubHooks(hooks)
+	return c.wire.SetPubSubHooks(hooks)
 }
 
 func (c *dedicatedSingleClient) Close() {
